@@ -16,22 +16,30 @@ var _ time.Time
 // Interface contracts of storage.Message: the getters of a message are pure (a message's identity,
 // size and header data do not change once it exists; Seen is the exception and is not declared pure).
 
-//@ iface Message.Mailbox(self Message) (r string)
-//@   pure
-//@ iface Message.ID(self Message) (r string)
-//@   pure
-//@ iface Message.Size(self Message) (r int64)
-//@   pure
-//@ iface Message.Subject(self Message) (r string)
-//@   pure
-//@ iface Message.From(self Message) (r *mail.Address)
-//@   pure
-//@ iface Message.Seen(self Message) (r bool)
-//@ iface Message.To(self Message) (r []*mail.Address)
-//@ iface Message.Date(self Message) (r time.Time)
-//@   pure
+// @ iface Message.Mailbox(self Message) (r string)
+// @   pure
+// @ iface Message.ID(self Message) (r string)
+// @   pure
+// @ iface Message.Size(self Message) (r int64)
+// @   pure
+// @ iface Message.Subject(self Message) (r string)
+// @   pure
+// @ iface Message.From(self Message) (r *mail.Address)
+// @   pure
+// @ iface Message.Seen(self Message) (r bool)
+// @ iface Message.To(self Message) (r []*mail.Address)
+// @ iface Message.Date(self Message) (r time.Time)
+// @   pure
+// Source: a reader or an error; what the reader yields (an abstract content token, C02) is recorded
+// at the moment of the call as ghost_srcContent(self).
+func ghost_srcContent(m Message) vcTok { panic("ghost") }
+func ghost_rcontent(r io.Reader) vcTok { panic("ghost") }
+func Ghost_srcContent(m Message) vcTok { return ghost_srcContent(m) }
+
 //@ iface Message.Source(self Message) (r io.ReadCloser, err error)
+//@   modifies ghost_srcContent(self)
 //@   ensures (r != nil) != (err != nil)
+//@   attr result-content=ghost_srcContent
 
 // ---------------------------------------------------------------------------------------------
 // Ghost call log of a Store, owned by the interface contracts below: the mailboxes and ids passed
@@ -70,8 +78,13 @@ func Ghost_addIDAt(s Store, j int) string   { return vcSeqAt(ghost_addIDs(s), j)
 
 // GetMessage: a message or an error, never neither (a message that does not exist is an error:
 // storage.ErrNotExist).  This is the contract the property states; both back-ends must refine it.
+func ghost_lastGot(s Store) Message { panic("ghost") }
+func Ghost_lastGot(s Store) Message { return ghost_lastGot(s) }
+
 //@ iface Store.GetMessage(self Store, mailbox string, id string) (m Message, err error)
+//@   modifies ghost_lastGot(self)
 //@   ensures (m != nil) != (err != nil)
+//@   attr result-ghost=ghost_lastGot
 
 //@ iface Store.MarkSeen(self Store, mailbox string, id string) (err error)
 //@ iface Store.PurgeMessages(self Store, mailbox string) (err error)
